@@ -46,17 +46,24 @@ Qed.
 Lemma rbind_error {A B} (f : A -> result B) : rbind Error f = Error. Proof. reflexivity. Qed.
 
 Definition handled_have_rules : bool :=
-  forallb (fun n => match find_rule n with Some _ => true | None => false end) (["CNOT"; "CSIGN"] ++ Route.swap_gates)%list.
+  forallb (fun n => match find_rule n with Some _ => true | None => false end) (["CNOT"; "CSIGN"] ++ Route.swap_gates_old)%list.
 Lemma handled_have_rules_true : handled_have_rules = true. Proof. vm_compute. reflexivity. Qed.
 
-Lemma norule_unhandled n : find_rule n = None -> handled_name n = false.
+(* Route.swap_gates = the six names that have a decomposition rule ++ the two alias names added by fixes/C07-alias-names
+   ("SWAPALPHA", "iSWAP"): those are routed but have no rule; the refusal theorem below excludes them by Route.is_alias
+   (the router moves such a gate instead of keeping it in place, so the argument "it is still there" does not apply). *)
+Lemma norule_unhandled n : find_rule n = None -> Route.is_alias n = false -> handled_name n = false.
 Proof.
-  intros H. destruct (handled_name n) eqn:E; [|reflexivity]. exfalso.
+  intros H Ha. destruct (handled_name n) eqn:E; [|reflexivity]. exfalso.
   pose proof handled_have_rules_true as K. unfold handled_have_rules in K. rewrite forallb_forall in K.
-  assert (Hin : In n (["CNOT"; "CSIGN"] ++ Route.swap_gates)%list).
+  assert (Hin : In n (["CNOT"; "CSIGN"] ++ Route.swap_gates_old)%list).
   { unfold handled_name in E. apply orb_prop in E. apply in_or_app. destruct E as [E|E].
     - left. unfold Route.is_ctrl in E. apply orb_prop in E. destruct E as [E|E]; apply String.eqb_eq in E; subst; cbn; auto.
-    - right. unfold Route.is_swapk in E. apply existsb_exists in E. destruct E as [x [Hx Ex]]. apply String.eqb_eq in Ex. subst. exact Hx. }
+    - right. unfold Route.is_swapk in E. apply existsb_exists in E. destruct E as [x [Hx Ex]]. apply String.eqb_eq in Ex. subst x.
+      change Route.swap_gates with (Route.swap_gates_old ++ Route.alias_names)%list in Hx.
+      apply in_app_or in Hx. destruct Hx as [Hx|Hx]; [exact Hx|]. exfalso.
+      assert (Route.is_alias n = true) by (unfold Route.is_alias; apply existsb_exists; exists n; split; [exact Hx|apply String.eqb_refl]).
+      congruence. }
   specialize (K n Hin). rewrite H in K. discriminate.
 Qed.
 
@@ -93,16 +100,16 @@ Proof.
 Qed.
 
 Theorem transpile_refuses_proof d Ndev M c g : In d devices -> In g c ->
-  mem (gname g) pauli_names = false -> find_rule (gname g) = None ->
+  mem (gname g) pauli_names = false -> find_rule (gname g) = None -> Route.is_alias (gname g) = false ->
   (forall lst, dnative d = Some lst -> mem (gname g) lst = false) ->
   transpile_on d Ndev M c = Error.
 Proof.
-  intros Hd Hin Hp Hf Hn. destruct (dev_facts d Hd) as [lst [keep [El [Hpb [Hv [Hdv [Hal Hm]]]]]]].
+  intros Hd Hin Hp Hf Hal0 Hn. destruct (dev_facts d Hd) as [lst [keep [El [Hpb [Hv [Hdv [Hal Hm]]]]]]].
   specialize (Hn lst El).
   assert (Hkeep : keep (gname g) = false) by (rewrite (keep_list lst _ keep Hpb); exact Hn).
   assert (Hc2 : mem (gname g) (c2q (cfg_of lst)) = false).
   { destruct (mem (gname g) (c2q (cfg_of lst))) eqn:E; [|reflexivity]. rewrite (Hm _ (or_introl E)) in Hn. discriminate. }
-  assert (Hh : handled_name (gname g) = false) by (apply norule_unhandled; exact Hf).
+  assert (Hh : handled_name (gname g) = false) by (apply norule_unhandled; assumption).
   rewrite transpile_unfold, pass_width. destruct (Nat.ltb Ndev M); [reflexivity|]. cbn [rbind].
   rewrite (pass_expand d Ndev M lst El).
   destruct (expand (BList lst) c) as [pre|] eqn:E1; [|reflexivity]. cbn [rbind].
